@@ -137,7 +137,8 @@ func chargedProps(opKind, mismatchKind string) []string {
 		return []string{"C01", "C03", "C05", "C06"}
 	case "seek_time", "seek_snap":
 		// (C03: a Seek is the one operation that may rewind acknowledged messages — of its own subscription only)
-		return []string{"C01", "C02", "C03", "C05", "C13", "C14"}
+		// (C15: the completion time a Seek stamps is the clock the age-based jobs go by)
+		return []string{"C01", "C02", "C03", "C05", "C13", "C14", "C15"}
 	case "snapshot", "delete_snap":
 		return []string{"C01", "C02", "C13"}
 	case "expire_subs":
